@@ -51,6 +51,9 @@ var wrapperText = map[string]string{
 	"errors":     "errors {DIR}/errors.log",
 	"errors404":  "errors {DIR}/errors.log {\n\t\t404 {DIR}/err404.html\n\t}",
 	"errorsgen":  "errors {DIR}/errors.log {\n\t\t404 {DIR}/err404.html\n\t\t* {DIR}/generic.html\n\t}",
+	// a page that is configured but cannot be opened when it is needed (a start-up warning only): the
+	// plain-text error body is what is left
+	"errorsmiss": "errors {DIR}/errors.log {\n\t\t404 {DIR}/err404.html\n\t\t500 {DIR}/no-such-page-500.html\n\t}",
 	"templates":  "templates /p .html .txt",
 	"mime":       "mime .xyz text/x-xyz",
 	"status":     "status 418 /teapot",
@@ -129,7 +132,7 @@ func (c *Case) errorBody(status int) (string, bool) {
 			return page404, true
 		}
 		return pageGeneric, true
-	case c.has("errors404") && status == 404:
+	case (c.has("errors404") || c.has("errorsmiss")) && status == 404:
 		return page404, true
 	}
 	return fmt.Sprintf("%d %s\n", status, http.StatusText(status)), false
